@@ -1,0 +1,9 @@
+//go:build !verif
+
+package tor
+
+import "github.com/jech/storrent/hash"
+
+func verifYield(point string) {}
+
+func verifAnnounceTap(h hash.Hash, ipv6 bool, port uint16) {}
